@@ -9,7 +9,7 @@
    wf_out = "absent, or empty, or exactly one header followed by complete rows with distinct names". *)
 From Coq Require Import Permutation.
 From Pan Require Import Base.Common Model.Aggregator Proofs.AggBase Proofs.AggInv Proofs.AggSess Proofs.AggFinal
-  Proofs.AggProgress Proofs.AggOracle Proofs.AggC17.
+  Proofs.AggProgress Proofs.AggOracle Proofs.AggC17 Proofs.AggProg.
 
 (* the four initial states of the property satisfy the invariant *)
 Theorem C17_initial_states : forall h0 R,
@@ -72,6 +72,14 @@ Proof. exact mreach_projects. Qed.
 Theorem C17_files_disjoint : forall outs : list (list Z),
   NoDup outs -> (forall a b, In a outs -> In b outs -> b <> buf_name a) -> NoDup (outs ++ map buf_name outs).
 Proof. exact file_names_disjoint. Qed.
+
+(* the constructor's program counters are derived from the instruction list T1 re-extracts *)
+Theorem C17_constructor_counters_from_instructions :
+  flat prog_ctor = at_cpc C0 true false ++ at_cpc C0 false false ++ at_cpc CWriteH false false
+                   ++ at_cpc CBuf false true ++ at_cpc CBufCreate false false ++ at_cpc CAcqE false false
+                   ++ at_cpc CAcqF false false ++ at_cpc CLoad false false ++ at_cpc (CCopy []) false false
+                   ++ at_cpc CRelF false false ++ at_cpc CRelE false false ++ at_cpc CDone false false.
+Proof. exact ctor_pcs_from_program. Qed.
 
 Theorem C17_scheduler_sound : forall ms e, exec_event ms e = ms \/ mstep ms (exec_event ms e).
 Proof. exact exec_event_sound. Qed.
